@@ -394,6 +394,19 @@ class World:
                         w.ev(pid, "block-end")
                     elif op in ("mark-begin", "mark-end"):
                         w.ev(pid, op)
+                    elif op == "adopt-private":
+                        # the thread payload drives an event loop of its own and adopts from inside it
+                        child = w.specs[instr[1]]
+                        if instr[2] == "asyncio":
+                            async def _inner():
+                                w.submit(child, "adopt", "payload:%d:threading+private-asyncio" % pid)
+                                await asyncio.sleep(instr[3] / 1000)
+                            asyncio.run(_inner())
+                        else:
+                            async def _inner():
+                                w.submit(child, "adopt", "payload:%d:threading+private-trio" % pid)
+                                await trio.sleep(instr[3] / 1000)
+                            trio.run(_inner)
                     elif op == "shutdown":
                         rec = {"op": "shutdown", "by": "payload:%d:threading" % pid, "t_call": w.now()}
                         try:
